@@ -330,7 +330,8 @@ classes:
 			if withState {
 				body = append(body, peg.StateCode(0))
 			}
-			g := &peg.Grammar{Rules: []*peg.Rule{{Name: "S", Expr: peg.Action(0, peg.Seq(body...))}, {Name: "R", Expr: peg.Choice(peg.Seq(peg.Ref("R"), peg.Lit("a")), peg.Lit("b"))}}}
+			// (display names that a careless emitter trips over: a percent sign at the end, quotes, a backslash)
+			g := &peg.Grammar{Rules: []*peg.Rule{{Name: "S", Display: "all classes, 100%", Expr: peg.Action(0, peg.Seq(body...))}, {Name: "R", Display: "a \"q\" \\ %s %", Expr: peg.Choice(peg.Seq(peg.Ref("R"), peg.Lit("a")), peg.Lit("b"))}}}
 			peg.Renumber(g, 1)
 			peg.AssignArgs(g)
 			c.Res.Counters["unicode_classes_named"] = int64(len(items))
